@@ -35,7 +35,7 @@ MANIFEST = dict(
         "of double/unsigned/int range, comments) — class histograms, outcomes and the library check that fired are in the evidence."),
   note=TRUST + "boost::spirit's and iostream's own code is runtime evidence only (sanitizers + watchdog + exact comparison with the model over the "
        "generated files); 'never hangs' is a theorem about the PEG model (parser_total), for the real parsers it is the watchdog; "
-       "numeric values are compared for tokens whose digits fit spirit's uint64 accumulator (<= 19 digits, any exponent); longer tokens and, "
+       "numeric values are compared for tokens whose digits fit spirit's uint64 accumulator (<= 18 digits, any exponent); longer tokens and, "
        "for the float scalar reader, anything but plain integers of <= 7 digits run for memory safety + oracle only; "
        "the number formatting model (fmtE/fmtG) and the byte-level round trip parse(print d) are tied by exact correspondence, not proved — the "
        "round-trip theorems are at token level with the separator outside the characters of a number as an explicit assumption; "
@@ -68,21 +68,22 @@ EXPONENT_RANGE_REPAIRED = False      # set by the probe `exponent-out-of-range` 
 def mode_of(data, float_scalar=False):
     """X: values are compared exactly; S: memory safety + oracle only.
     The model follows boost 1.83's real_impl (uint64 accumulator, pow10 table, every rounding), so any
-    token whose integer+fraction digits fit the accumulator (<= 19 digits) is compared, with any exponent.
+    token whose integer+fraction digits fit the accumulator (<= 18 digits) is compared, with any exponent.
     The float scalar reader (uint32 accumulator, float arithmetic) is compared for plain integers of
     at most 7 digits only."""
-    lim = 7 if float_scalar else 19
+    lim = 7 if float_scalar else 18
     for m in DIGRUN.finditer(data):
         if sum(1 for c in m.group(0) if 48 <= c <= 57) > lim:
             return "S"
     if float_scalar and re.search(rb"[.eE]", data):
         return "S"
-    if not EXPONENT_RANGE_REPAIRED and exp_out_of_range(data):
+    if not EXPONENT_RANGE_REPAIRED and exp_out_of_range(data, float_scalar):
         return "S"
     return "X"
 
 
-def exp_out_of_range(data):
+def exp_out_of_range(data, float_scalar=False):
+    hi, lo, run = (38, -74, rb"[0-9]{30,}") if float_scalar else (308, -614, rb"[0-9]{300,}")
     if True:
         # finding F11: a number whose decimal exponent is outside [-614, 308] makes spirit's double_ fail WITHOUT
         # restoring the iterator; the CSV grammars then read it as a missing value / drop it.  The model has the
@@ -92,10 +93,10 @@ def exp_out_of_range(data):
             except ValueError: continue
             if abs(e) > 2147483648: continue
             k = e - len(m.group(2) or b"")
-            if k > 308 or k < -614:
+            if k > hi or k < lo:
                 return True
         # same effect without an exponent part: digits beyond the accumulator count as a positive exponent
-        for m in re.finditer(rb"[0-9]{300,}", data):
+        for m in re.finditer(run, data):
             return True
     return False
 
@@ -440,12 +441,12 @@ def csv_params(r):
     return kind, ty, lp, sep, nout, maxb, comment, title
 
 
-def avoid_f11(ctx, make):
+def avoid_f11(ctx, make, float_scalar=False):
     """while finding F11 is open, keep its trigger out of the generated CSV stream (it stays in the corpus):
     every hit would cost a one-by-one rerun of its chunk"""
     data = make()
     for _ in range(8):
-        if EXPONENT_RANGE_REPAIRED or not exp_out_of_range(data): break
+        if EXPONENT_RANGE_REPAIRED or not exp_out_of_range(data, float_scalar): break
         ctx.count("csv_files_regenerated_to_avoid_F11")
         data = make()
     return data
@@ -544,7 +545,7 @@ def classify(ops, res):
         feat = "export-roundtrip"
     elif t[0] in ("csv", "csvf") and t[7] == "0":
         feat = "F10-maxbatch-zero"
-    elif t[0] in ("csv", "csvf", "csv1") and exp_out_of_range(data):
+    elif t[0] in ("csv", "csvf", "csv1") and exp_out_of_range(data, t[0] == "csv1" and t[1] == "f32"):
         feat = "F11-exponent-out-of-range"
     elif t[0] in ("svm", "svmf"):
         if not data.strip(b"\n") and t[2] == "c":
@@ -601,7 +602,7 @@ def run(ctx):
                     "(SparseData.cpp, Csv.cpp, Csv.h, SparseData.h are modelled, not translated)",
                     "boost::spirit 1.83 (parsing, value conversion), libstdc++ iostream number formatting: exercised under ASan/UBSan and "
                     "compared byte for byte / bit for bit with the model, not proved about"]
-    ctx.assumptions += ["values of numeric tokens are compared when their integer+fraction digits fit spirit's uint64 accumulator (<= 19 digits; any exponent); "
+    ctx.assumptions += ["values of numeric tokens are compared when their integer+fraction digits fit spirit's uint64 accumulator (<= 18 digits; any exponent); "
                         "longer tokens run for memory safety and the oracle only",
                         "a single allocation above 1 MiB inside an importer is answered by std::bad_alloc (harness operator new)",
                         "exportSparseData(sortLabels=true) uses std::sort, which is not stable: exercised for at most 13 elements, where libstdc++ sorts by insertion",
@@ -661,12 +662,12 @@ def run(ctx):
     for _ in range(nvalid // 5):
         ty, maxb, data = gen_csv1(r, ctx)
         for _ in range(8):
-            if EXPONENT_RANGE_REPAIRED or not exp_out_of_range(data): break
+            if EXPONENT_RANGE_REPAIRED or not exp_out_of_range(data, ty == "f32"): break
             ty, maxb, data = gen_csv1(r, ctx)
         cases.append([csv1_op(ty, maxb, data, ctx)])
     for _ in range(nmut // 5):
         ty, maxb, data = gen_csv1(r)
-        data = avoid_f11(ctx, lambda: mutate(r, data, ctx))
+        data = avoid_f11(ctx, lambda: mutate(r, data, ctx), ty == "f32")
         cases.append([csv1_op(ty, maxb, data, ctx)])
     nrt = 300 if ctx.quick else 3000
     cases += [[gen_rt(r, ctx)] for _ in range(nrt)]
